@@ -147,6 +147,9 @@ func c14Explore(t *testing.T, c *vcore.Ctx) {
 }
 
 func c14One(t *testing.T, c *vcore.Ctx, b *world.Backend, snap *world.Snap, pre *world.View, cc *c14Case) {
+	// a panic in a goroutine of the repository's own ends the worker: the driver reports it for this case
+	c.Journal("C14/process-crashed-outside-the-injected-crash", cc)
+	defer c.JournalDone()
 	b.Restore(snap)
 	var res wResult
 	var walAtCrash []world.WALEvent
